@@ -7,7 +7,7 @@ API call (under the guarantee `G`) and by every environment step.
 namespace Xp.C06
 
 /-- `b` keeps whatever resourceRef `a` has (the reference is set-once) -/
-def refExt (a b : Claim) : Prop := ∀ n, a.ref = some n → b.ref = some n
+def refExt (a b : Claim) : Prop := ∀ n, a.refName = some n → b.refName = some n
 
 theorem refExt_refl (a : Claim) : refExt a a := fun _ h => h
 
@@ -15,19 +15,23 @@ theorem refExt_trans {a b c : Claim} (h1 : refExt a b) (h2 : refExt b c) : refEx
   fun n h => h2 n (h1 n h)
 
 /-- some stored version of the claim carried `spec.resourceRef.name = n` -/
-def acked (s : St) (n : Name) : Prop := ∃ v ∈ s.hist, v.ref = some n
+def acked (s : St) (n : Name) : Prop := ∃ v ∈ s.hist, v.refName = some n
+
+/-- `x` carries a claimRef that is not this claim's reference (it differs in at least one of name,
+namespace, group, version, kind) -/
+def XR.foreignTo (x : XR) (me : CRef) : Prop := ∃ r, x.cref = some r ∧ r ≠ me
 
 /-- XR `n` exists and its claimRef names another claim -/
-def foreignAt (s : St) (n : Name) : Prop := ∃ x, s.xrs n = some x ∧ x.cref = some .other
+def foreignAt (s : St) (n : Name) : Prop := ∃ x, s.xrs n = some x ∧ x.foreignTo s.me
 
-/-- XR `n` exists and its claimRef names this claim -/
-def boundAt (s : St) (n : Name) : Prop := ∃ x, s.xrs n = some x ∧ x.cref = some .self
+/-- XR `n` exists and its claimRef is exactly this claim's reference -/
+def boundAt (s : St) (n : Name) : Prop := ∃ x, s.xrs n = some x ∧ x.cref = some s.me
 
 /-- the ghost trace is well formed: every `create n` has an older `ack n` (or `n` was
 already recorded before the start), and no write ever hit a foreign-bound XR -/
-def TraceOk (P0 : Name → Prop) : List Ev → Prop
+def TraceOk (P0 : Name → Prop) (me : CRef) : List Ev → Prop
   | [] => True
-  | e :: t => TraceOk P0 t ∧ (∀ n, e = .create n → Ev.ack n ∈ t ∨ P0 n) ∧ (∀ n, e ≠ .xrWrite n true)
+  | e :: t => TraceOk P0 me t ∧ (∀ n, e = .create n → Ev.ack n ∈ t ∨ P0 n) ∧ (∀ n r, e = .xrWrite n (some r) → r = me)
 
 /-- newest-first history: strictly decreasing rv, set-once resourceRef -/
 def HistOk (l : List Claim) : Prop :=
@@ -41,12 +45,14 @@ structure Inv (P0 : Name → Prop) (s : St) : Prop where
   ackd : ∀ n, acked s n → Ev.ack n ∈ s.trace ∨ P0 n
   ackHist : ∀ n, Ev.ack n ∈ s.trace → acked s n
   p0 : ∀ n, P0 n → acked s n
-  trace : TraceOk P0 s.trace
+  trace : TraceOk P0 s.me s.trace
+  /-- every stored version of the claim is the same object: `cm.GetReference()` never changes -/
+  idOk : ∀ v ∈ s.hist, v.id = s.me
   /-- the stored state of every XR name is the newest entry of its history -/
   xcur : ∀ n, s.xrs n ∈ s.xhist n
   /-- an XR that is bound to another claim now has been so in every state the name ever had:
   nobody but this controller creates XRs or sets a claimRef, and it only ever writes its own -/
-  xfor : ∀ n, foreignAt s n → ∀ ox ∈ s.xhist n, ∃ x, ox = some x ∧ x.cref = some .other
+  xfor : ∀ n, foreignAt s n → ∀ ox ∈ s.xhist n, ∃ x, ox = some x ∧ x.foreignTo s.me
 
 /-- `s'` is a possible future of `s`: what a thread learnt in `s` and may still rely on in `s'` -/
 structure Fut (s s' : St) : Prop where
@@ -70,9 +76,9 @@ def G (s : St) : Req → Prop
   | .updClaim c => ∃ v ∈ s.hist, v.rv = c.rv ∧ refExt v c
   | .upgradeXR n _ _ => ¬ foreignAt s n
   | .deleteXR n _ => ¬ foreignAt s n
-  | .createXR n _ => acked s n
-  | .patchXR n _ => acked s n ∧ ¬ foreignAt s n
-  | .applyXR n => acked s n ∧ ¬ foreignAt s n
+  | .createXR n _ cref => acked s n ∧ cref = s.me
+  | .patchXR n _ cref => (acked s n ∧ ¬ foreignAt s n) ∧ cref = s.me
+  | .applyXR n cref => (acked s n ∧ ¬ foreignAt s n) ∧ cref = s.me
 
 /-! ### history lemmas -/
 
@@ -99,7 +105,7 @@ theorem hist_rv_inj {l : List Claim} (h : HistOk l) {a b : Claim} (ha : a ∈ l)
 
 /-- set-once, as a statement about any two stored versions -/
 theorem hist_ref_unique {l : List Claim} (h : HistOk l) {a b : Claim} (ha : a ∈ l) (hb : b ∈ l)
-    {n m : Name} (hn : a.ref = some n) (hm : b.ref = some m) : n = m := by
+    {n m : Name} (hn : a.refName = some n) (hm : b.refName = some m) : n = m := by
   rcases pairwise_mem_cases h ha hb with e | ⟨_, hx⟩ | ⟨_, hx⟩
   · subst e; rw [hn] at hm; exact Option.some.inj hm
   · have := hx m hm; rw [hn] at this; exact Option.some.inj this
@@ -117,7 +123,7 @@ theorem cur_mem {P0 : Name → Prop} {s : St} (hi : Inv P0 s) {c : Claim} (hc : 
 /-- a (possibly stale) read that shows XR `n` absent, unbound or bound to this claim proves that
 `n` is not bound to another claim now -/
 theorem not_foreign_of_hist {P0 : Name → Prop} {s : St} (hi : Inv P0 s) {n : Name} {ox : Option XR}
-    (hox : ox ∈ s.xhist n) (h : ∀ x, ox = some x → x.cref ≠ some .other) : ¬ foreignAt s n := by
+    (hox : ox ∈ s.xhist n) (h : ∀ x, ox = some x → ¬ x.foreignTo s.me) : ¬ foreignAt s n := by
   intro hf
   obtain ⟨x, hx, hc⟩ := hi.xfor n hf ox hox
   exact h x hx hc
@@ -125,7 +131,7 @@ theorem not_foreign_of_hist {P0 : Name → Prop} {s : St} (hi : Inv P0 s) {n : N
 /-! ### primitives preserve the invariant -/
 
 theorem inv_emit {P0 : Name → Prop} {s : St} (hi : Inv P0 s) (e : Ev)
-    (h1 : ∀ n, e = .create n → Ev.ack n ∈ s.trace ∨ P0 n) (h2 : ∀ n, e ≠ .xrWrite n true)
+    (h1 : ∀ n, e = .create n → Ev.ack n ∈ s.trace ∨ P0 n) (h2 : ∀ n r, e = .xrWrite n (some r) → r = s.me)
     (h3 : ∀ n, e = .ack n → acked s n) : Inv P0 (emit s e) where
   rvLt := hi.rvLt
   mono := hi.mono
@@ -141,6 +147,7 @@ theorem inv_emit {P0 : Name → Prop} {s : St} (hi : Inv P0 s) (e : Ev)
     · exact hi.ackHist n h
   p0 := hi.p0
   trace := ⟨hi.trace, h1, h2⟩
+  idOk := hi.idOk
   xcur := hi.xcur
   xfor := hi.xfor
 
@@ -156,23 +163,23 @@ theorem fut_pushClaim (s : St) (c : Claim) : Fut s (pushClaim s c).1 :=
 theorem pushClaim_resp_mem (s : St) (c : Claim) : (pushClaim s c).2 ∈ (pushClaim s c).1.hist :=
   List.mem_cons_self
 
-theorem traceOk_append_acks {P0 : Name → Prop} {extra tr : List Ev} (h : TraceOk P0 tr)
-    (he : ∀ e ∈ extra, ∃ n, e = Ev.ack n) : TraceOk P0 (extra ++ tr) := by
+theorem traceOk_append_acks {P0 : Name → Prop} {me : CRef} {extra tr : List Ev} (h : TraceOk P0 me tr)
+    (he : ∀ e ∈ extra, ∃ n, e = Ev.ack n) : TraceOk P0 me (extra ++ tr) := by
   induction extra with
   | nil => exact h
   | cons e es ih =>
     obtain ⟨n, rfl⟩ := he e List.mem_cons_self
     refine ⟨ih (fun e' h' => he e' (List.mem_cons_of_mem _ h')), ?_, ?_⟩
     · intro m hm; cases hm
-    · intro m hm; cases hm
+    · intro m r hm; cases hm
 
 /-- storing a new version `c` on top of the current one (while appending acknowledgement
 events `extra`) keeps the invariant provided `c` keeps the current resourceRef, `extra`
 only acknowledges `c`'s reference, and `c`'s reference (if any) is acknowledged -/
 theorem inv_pushClaim {P0 : Name → Prop} {s : St} (hi : Inv P0 s) {cur c : Claim} (extra : List Ev)
     (hc : s.claim = some cur) (hext : refExt cur c)
-    (hextra : ∀ e ∈ extra, ∃ n, e = Ev.ack n ∧ c.ref = some n)
-    (hack : ∀ n, c.ref = some n → Ev.ack n ∈ extra ++ s.trace ∨ P0 n) :
+    (hextra : ∀ e ∈ extra, ∃ n, e = Ev.ack n ∧ c.refName = some n)
+    (hack : ∀ n, c.refName = some n → Ev.ack n ∈ extra ++ s.trace ∨ P0 n) (hid : c.id = s.me) :
     Inv P0 (pushClaim { s with trace := extra ++ s.trace } c).1 := by
   obtain ⟨t, ht⟩ := hi.cur cur hc
   have hmono := hi.mono
@@ -183,7 +190,7 @@ theorem inv_pushClaim {P0 : Name → Prop} {s : St} (hi : Inv P0 s) {cur c : Cla
     exact ⟨v, List.mem_cons_of_mem _ hv, hr⟩
   refine
     { rvLt := ?_, mono := ?_, cur := ?_, bound := ?_, ackd := ?_, ackHist := ?_, p0 := ?_, trace := ?_,
-      xcur := hi.xcur, xfor := hi.xfor }
+      idOk := ?_, xcur := hi.xcur, xfor := hi.xfor }
   · intro v hv
     simp only [pushClaim] at hv ⊢
     rcases List.mem_cons.mp hv with rfl | hv
@@ -226,14 +233,19 @@ theorem inv_pushClaim {P0 : Name → Prop} {s : St} (hi : Inv P0 s) {cur c : Cla
     exact hacked n (hi.p0 n hn)
   · simp only [pushClaim]
     exact traceOk_append_acks hi.trace (fun e he => by obtain ⟨n, hn, _⟩ := hextra e he; exact ⟨n, hn⟩)
+  · intro v hv
+    simp only [pushClaim] at hv ⊢
+    rcases List.mem_cons.mp hv with rfl | hv
+    · exact hid
+    · exact hi.idOk v hv
 
 /-- special case: no event, same reference as the current version -/
 theorem inv_pushClaim_same {P0 : Name → Prop} {s : St} (hi : Inv P0 s) {cur c : Claim}
-    (hc : s.claim = some cur) (href : c.ref = cur.ref) : Inv P0 (pushClaim s c).1 := by
+    (hc : s.claim = some cur) (href : c.refName = cur.refName) (hid : c.id = cur.id) : Inv P0 (pushClaim s c).1 := by
   have := inv_pushClaim hi (c := c) [] hc (fun n hn => by rw [href]; exact hn) (fun e he => by cases he)
     (fun n hn => by
       have : acked s n := ⟨cur, cur_mem hi hc, by rw [← href]; exact hn⟩
-      simpa using hi.ackd n this)
+      simpa using hi.ackd n this) (hid.trans (hi.idOk cur (cur_mem hi hc)))
   simpa using this
 
 theorem fut_pushClaim' (s : St) (extra : List Ev) (c : Claim) :
@@ -241,21 +253,21 @@ theorem fut_pushClaim' (s : St) (extra : List Ev) (c : Claim) :
   ⟨fun _ h => List.mem_cons_of_mem _ h, fun _ h => h⟩
 
 theorem foreignAt_putXR_iff (s : St) (n : Name) (x : XR) (m : Name) :
-    foreignAt (putXR s n x).1 m ↔ (if m = n then x.cref = some .other else foreignAt s m) := by
-  unfold foreignAt putXR
+    foreignAt (putXR s n x).1 m ↔ (if m = n then x.foreignTo s.me else foreignAt s m) := by
+  unfold foreignAt putXR XR.foreignTo
   by_cases h : m = n
   · simp [h]
   · simp [h]
 
 theorem boundAt_putXR_iff (s : St) (n : Name) (x : XR) (m : Name) :
-    boundAt (putXR s n x).1 m ↔ (if m = n then x.cref = some .self else boundAt s m) := by
+    boundAt (putXR s n x).1 m ↔ (if m = n then x.cref = some s.me else boundAt s m) := by
   unfold boundAt putXR
   by_cases h : m = n
   · simp [h]
   · simp [h]
 
 theorem inv_putXR {P0 : Name → Prop} {s : St} (hi : Inv P0 s) (n : Name) (x : XR)
-    (hb : x.cref = some .self → acked s n) (hfo : x.cref = some .other → foreignAt s n) :
+    (hb : x.cref = some s.me → acked s n) (hfo : x.foreignTo s.me → foreignAt s n) :
     Inv P0 (putXR s n x).1 where
   rvLt := fun v hv => by have := hi.rvLt v hv; simp only [putXR]; omega
   mono := hi.mono
@@ -269,6 +281,7 @@ theorem inv_putXR {P0 : Name → Prop} {s : St} (hi : Inv P0 s) (n : Name) (x : 
   ackHist := hi.ackHist
   p0 := hi.p0
   trace := hi.trace
+  idOk := hi.idOk
   xcur := fun m => by
     simp only [putXR]
     by_cases h : m = n
@@ -288,7 +301,7 @@ theorem inv_putXR {P0 : Name → Prop} {s : St} (hi : Inv P0 s) (n : Name) (x : 
 
 /-- rewriting XR `n` keeps every "not foreign" fact if the new content is not foreign-bound
 unless the old one was -/
-theorem fut_putXR (s : St) (n : Name) (x : XR) (h : x.cref = some .other → foreignAt s n) : Fut s (putXR s n x).1 where
+theorem fut_putXR (s : St) (n : Name) (x : XR) (h : x.foreignTo s.me → foreignAt s n) : Fut s (putXR s n x).1 where
   hist := fun _ hv => hv
   notForeign := fun m hm hf => by
     rw [foreignAt_putXR_iff] at hf
@@ -297,8 +310,8 @@ theorem fut_putXR (s : St) (n : Name) (x : XR) (h : x.cref = some .other → for
     · simp [e] at hf; exact hm hf
 
 theorem inv_setXR {P0 : Name → Prop} {s : St} (hi : Inv P0 s) (n : Name) (ox : Option XR)
-    (hb : ∀ x, ox = some x → x.cref = some .self → acked s n)
-    (hfo : ∀ x, ox = some x → x.cref = some .other → foreignAt s n) : Inv P0 (setXR s n ox) where
+    (hb : ∀ x, ox = some x → x.cref = some s.me → acked s n)
+    (hfo : ∀ x, ox = some x → x.foreignTo s.me → foreignAt s n) : Inv P0 (setXR s n ox) where
   rvLt := hi.rvLt
   mono := hi.mono
   cur := hi.cur
@@ -311,6 +324,7 @@ theorem inv_setXR {P0 : Name → Prop} {s : St} (hi : Inv P0 s) (n : Name) (ox :
   ackHist := hi.ackHist
   p0 := hi.p0
   trace := hi.trace
+  idOk := hi.idOk
   xcur := fun m => by
     simp only [setXR]
     by_cases h : m = n
@@ -328,7 +342,7 @@ theorem inv_setXR {P0 : Name → Prop} {s : St} (hi : Inv P0 s) (n : Name) (ox :
       exact hi.xfor m ⟨x, hx, hc⟩ oy hoy
 
 theorem fut_setXR (s : St) (n : Name) (ox : Option XR)
-    (h : ∀ x, ox = some x → x.cref = some .other → foreignAt s n) : Fut s (setXR s n ox) where
+    (h : ∀ x, ox = some x → x.foreignTo s.me → foreignAt s n) : Fut s (setXR s n ox) where
   hist := fun _ hv => hv
   notForeign := fun m hm ⟨x, hx, hc⟩ => by
     simp only [setXR] at hx
@@ -338,34 +352,39 @@ theorem fut_setXR (s : St) (n : Name) (ox : Option XR)
 
 /-! ### every API call preserves the invariant and is a "future" -/
 
-theorem foreign_false_of_not {s : St} {n : Name} {x : XR} (hx : s.xrs n = some x) (h : ¬ foreignAt s n) :
-    x.foreign = false := by
-  unfold XR.foreign
-  cases hc : x.cref with
-  | none => rfl
-  | some c =>
-    cases c with
-    | self => rfl
-    | other => exact absurd ⟨x, hx, hc⟩ h
+/-- a write to an XR that is not foreign-bound records a claimRef that is this claim's (or none) -/
+theorem was_me_of_not {s : St} {n : Name} {x : XR} (hx : s.xrs n = some x) (h : ¬ foreignAt s n) :
+    ∀ r, x.cref = some r → r = s.me := by
+  intro r hc
+  apply Classical.byContradiction
+  intro hne
+  exact h ⟨x, hx, r, hc, hne⟩
+
+theorem not_foreignTo_of_cref {x : XR} {me : CRef} (h : x.cref = some me) : ¬ x.foreignTo me := by
+  intro ⟨r, hr, hne⟩
+  rw [h] at hr
+  exact hne (Option.some.inj hr).symm
 
 theorem delete_core {P0 : Name → Prop} {s : St} (hi : Inv P0 s) {n : Name} {x : XR} (hx : s.xrs n = some x)
     (x1 : XR) (hc : x1.cref = x.cref) :
-    Inv P0 (if x1.fin then (if x1.deleting then setXR s n (some x1) else (putXR s n { x1 with deleting := true }).1)
-            else setXR s n none) ∧
-    Fut s (if x1.fin then (if x1.deleting then setXR s n (some x1) else (putXR s n { x1 with deleting := true }).1)
-            else setXR s n none) := by
-  have hb : x1.cref = some .self → acked s n := fun h => hi.bound n ⟨x, hx, hc ▸ h⟩
-  have hf : x1.cref = some .other → foreignAt s n := fun h => ⟨x, hx, hc ▸ h⟩
+    Inv P0 (delState s n x x1) ∧ Fut s (delState s n x x1) ∧ (delState s n x x1).me = s.me := by
+  have hb : x1.cref = some s.me → acked s n := fun h => hi.bound n ⟨x, hx, hc ▸ h⟩
+  have hf : x1.foreignTo s.me → foreignAt s n := fun ⟨r, hr, hne⟩ => ⟨x, hx, r, hc ▸ hr, hne⟩
+  unfold delState
   by_cases h1 : x1.fin = true
   · by_cases h2 : x1.deleting = true
     · simp only [h1, h2, if_true]
-      exact ⟨inv_setXR hi n _ (fun y hy hcy => by have := Option.some.inj hy; subst this; exact hb hcy)
-          (fun y hy hcy => by have := Option.some.inj hy; subst this; exact hf hcy),
-        fut_setXR s n _ (fun y hy hcy => by have := Option.some.inj hy; subst this; exact hf hcy)⟩
+      by_cases h3 : x1 = x
+      · simp only [h3, if_true]
+        exact ⟨hi, Fut.refl s, trivial⟩
+      · simp only [h3, if_false]
+        exact ⟨inv_setXR hi n _ (fun y hy hcy => by have := Option.some.inj hy; subst this; exact hb hcy)
+            (fun y hy hcy => by have := Option.some.inj hy; subst this; exact hf hcy),
+          fut_setXR s n _ (fun y hy hcy => by have := Option.some.inj hy; subst this; exact hf hcy), rfl⟩
     · simp only [h1, h2, if_true]
-      exact ⟨inv_putXR hi n _ (fun h => hb h) (fun h => hf h), fut_putXR s n _ (fun h => hf h)⟩
+      exact ⟨inv_putXR hi n _ (fun h => hb h) (fun h => hf h), fut_putXR s n _ (fun h => hf h), rfl⟩
   · simp only [h1]
-    exact ⟨inv_setXR hi n none (fun y hy => by cases hy) (fun y hy => by cases hy), fut_setXR s n none (fun y hy => by cases hy)⟩
+    exact ⟨inv_setXR hi n none (fun y hy => by cases hy) (fun y hy => by cases hy), fut_setXR s n none (fun y hy => by cases hy), rfl⟩
 
 theorem exec_inv_fut {P0 : Name → Prop} {s : St} (hi : Inv P0 s) (r : Req) (hg : G s r) :
     Inv P0 (exec s r).1 ∧ Fut s (exec s r).1 := by
@@ -390,7 +409,7 @@ theorem exec_inv_fut {P0 : Name → Prop} {s : St} (hi : Inv P0 s) (r : Req) (hg
         obtain ⟨v, hv, hvr, hext⟩ := hg
         have hveq : v = cur := hist_rv_inj hi.mono hv (cur_mem hi hc) (hvr.trans hrv)
         subst hveq
-        refine ⟨inv_pushClaim hi (ackOf c) hc (fun n hn => hext n hn) ?_ ?_, fut_pushClaim' _ _ _⟩
+        refine ⟨inv_pushClaim hi (ackOf c) hc (fun n hn => hext n hn) ?_ ?_ (hi.idOk v hv), fut_pushClaim' _ _ _⟩
         · intro e he
           unfold ackOf at he
           split at he
@@ -399,7 +418,8 @@ theorem exec_inv_fut {P0 : Name → Prop} {s : St} (hi : Inv P0 s) (r : Req) (hg
         · intro n hn
           refine Or.inl (List.mem_append_left _ ?_)
           show Ev.ack n ∈ ackOf c
-          unfold ackOf; simp at hn; rw [hn]; simp
+          have hn' : c.refName = some n := hn
+          unfold ackOf; rw [hn']; simp
   | updClaimStatus rv =>
     simp only [exec]
     split
@@ -407,7 +427,7 @@ theorem exec_inv_fut {P0 : Name → Prop} {s : St} (hi : Inv P0 s) (r : Req) (hg
     · rename_i cur hc
       split
       · exact ⟨hi, Fut.refl s⟩
-      · exact ⟨inv_pushClaim_same hi hc rfl, fut_pushClaim _ _⟩
+      · exact ⟨inv_pushClaim_same hi hc rfl rfl, fut_pushClaim _ _⟩
   | upgradeXR n rv valid =>
     simp only [exec]
     split
@@ -417,77 +437,81 @@ theorem exec_inv_fut {P0 : Name → Prop} {s : St} (hi : Inv P0 s) (r : Req) (hg
       · exact ⟨hi, Fut.refl s⟩
       · split
         · exact ⟨hi, Fut.refl s⟩
-        · have hnf : x.foreign = false := foreign_false_of_not hx hg
-          have hb : x.cref = some .self → acked s n := fun h => hi.bound n ⟨x, hx, h⟩
-          refine ⟨inv_emit (inv_putXR hi n x hb (fun h => ⟨x, hx, h⟩)) _ (fun m h => by cases h) (fun m h => ?_) (fun m h => by cases h),
+        · have hb : x.cref = some s.me → acked s n := fun h => hi.bound n ⟨x, hx, h⟩
+          refine ⟨inv_emit (inv_putXR hi n x hb (fun h => ⟨x, hx, h⟩)) _ (fun m h => by cases h) (fun m r h => ?_) (fun m h => by cases h),
             (fut_putXR s n x (fun h => ⟨x, hx, h⟩)).trans (fut_emit _ _)⟩
-          rw [hnf] at h; cases h
+          exact was_me_of_not hx hg r (Ev.xrWrite.inj h).2
   | deleteXR n fg =>
     simp only [exec]
     split
     · exact ⟨hi, Fut.refl s⟩
     · rename_i x hx
-      have hnf : x.foreign = false := foreign_false_of_not hx hg
       have hcref : (if fg then { x with fin := true } else x).cref = x.cref := by split <;> rfl
-      obtain ⟨h1, h2⟩ := delete_core hi hx _ hcref
-      exact ⟨inv_emit h1 _ (fun m h => by cases h) (fun m h => by rw [hnf] at h; cases h) (fun m h => by cases h),
+      obtain ⟨h1, h2, h3⟩ := delete_core hi hx _ hcref
+      refine ⟨inv_emit h1 _ (fun m h => by cases h) (fun m r h => ?_) (fun m h => by cases h),
         h2.trans (fut_emit _ _)⟩
-  | createXR n rvSet =>
+      rw [h3]
+      exact was_me_of_not hx hg r (Ev.xrWrite.inj h).2
+  | createXR n rvSet cref =>
     simp only [exec]
     split
     · exact ⟨hi, Fut.refl s⟩
     · rename_i hx
       split
       · exact ⟨hi, Fut.refl s⟩
-      · have hack : acked s n := hg
-        refine ⟨inv_emit (inv_putXR hi n newXR (fun _ => hack) (fun h => by cases h)) _ ?_ (fun m h => by cases h) (fun m h => by cases h),
-          (fut_putXR s n newXR (fun h => by cases h)).trans (fut_emit _ _)⟩
+      · obtain ⟨hack, hme⟩ := hg
+        subst hme
+        refine ⟨inv_emit (inv_putXR hi n (newXR s.me) (fun _ => hack) (fun h => absurd h (not_foreignTo_of_cref rfl))) _ ?_
+            (fun m r h => by cases h) (fun m h => by cases h),
+          (fut_putXR s n (newXR s.me) (fun h => absurd h (not_foreignTo_of_cref rfl))).trans (fut_emit _ _)⟩
         intro m hm
         cases hm
         exact hi.ackd n hack
-  | patchXR n rv =>
+  | patchXR n rv cref =>
     simp only [exec]
     split
     · exact ⟨hi, Fut.refl s⟩
     · rename_i x hx
-      obtain ⟨hack, hnfa⟩ := hg
-      have hnf : x.foreign = false := foreign_false_of_not hx hnfa
-      have key : Inv P0 (emit (putXR s n (bindXR x)).1 (.xrWrite n x.foreign)) ∧
-          Fut s (emit (putXR s n (bindXR x)).1 (.xrWrite n x.foreign)) :=
-        ⟨inv_emit (inv_putXR hi n (bindXR x) (fun _ => hack) (fun h => by cases h)) _ (fun m h => by cases h)
-            (fun m h => by rw [hnf] at h; cases h) (fun m h => by cases h),
-          (fut_putXR s n (bindXR x) (fun h => by cases h)).trans (fut_emit _ _)⟩
+      obtain ⟨⟨hack, hnfa⟩, hme⟩ := hg
+      subst hme
+      have key : Inv P0 (emit (putXR s n (bindXR s.me x)).1 (.xrWrite n x.cref)) ∧
+          Fut s (emit (putXR s n (bindXR s.me x)).1 (.xrWrite n x.cref)) :=
+        ⟨inv_emit (inv_putXR hi n (bindXR s.me x) (fun _ => hack) (fun h => absurd h (not_foreignTo_of_cref rfl))) _ (fun m h => by cases h)
+            (fun m r h => was_me_of_not hx hnfa r (Ev.xrWrite.inj h).2) (fun m h => by cases h),
+          (fut_putXR s n (bindXR s.me x) (fun h => absurd h (not_foreignTo_of_cref rfl))).trans (fut_emit _ _)⟩
       repeat' split
       all_goals first | exact ⟨hi, Fut.refl s⟩ | exact key
-  | applyXR n =>
+  | applyXR n cref =>
     simp only [exec]
-    obtain ⟨hack, hnfa⟩ := hg
+    obtain ⟨⟨hack, hnfa⟩, hme⟩ := hg
+    subst hme
     split
-    · refine ⟨inv_emit (inv_putXR hi n newXR (fun _ => hack) (fun h => by cases h)) _ ?_ (fun m h => by cases h) (fun m h => by cases h),
-        (fut_putXR s n newXR (fun h => by cases h)).trans (fut_emit _ _)⟩
+    · refine ⟨inv_emit (inv_putXR hi n (newXR s.me) (fun _ => hack) (fun h => absurd h (not_foreignTo_of_cref rfl))) _ ?_
+          (fun m r h => by cases h) (fun m h => by cases h),
+        (fut_putXR s n (newXR s.me) (fun h => absurd h (not_foreignTo_of_cref rfl))).trans (fut_emit _ _)⟩
       intro m hm
       cases hm
       exact hi.ackd n hack
     · rename_i x hx
-      have hnf : x.foreign = false := foreign_false_of_not hx hnfa
-      refine ⟨inv_emit (inv_putXR hi n (bindXR x) (fun _ => hack) (fun h => by cases h)) _ (fun m h => by cases h) (fun m h => ?_) (fun m h => by cases h),
-        (fut_putXR s n (bindXR x) (fun h => by cases h)).trans (fut_emit _ _)⟩
-      rw [hnf] at h; cases h
+      refine ⟨inv_emit (inv_putXR hi n (applyBindXR s.me x) (fun _ => hack) (fun h => absurd h (not_foreignTo_of_cref rfl))) _ (fun m h => by cases h)
+          (fun m r h => ?_) (fun m h => by cases h),
+        (fut_putXR s n (applyBindXR s.me x) (fun h => absurd h (not_foreignTo_of_cref rfl))).trans (fut_emit _ _)⟩
+      exact was_me_of_not hx hnfa r (Ev.xrWrite.inj h).2
 
 /-! ### environment steps -/
 
 theorem env_inv_fut {P0 : Name → Prop} {s s' : St} (hi : Inv P0 s) (he : Env s s') : Inv P0 s' ∧ Fut s s' := by
   cases he with
   | xrWrite n x x' hx hc =>
-    exact ⟨inv_putXR hi n x' (fun h => hi.bound n ⟨x, hx, hc ▸ h⟩) (fun h => ⟨x, hx, hc ▸ h⟩),
-      fut_putXR s n x' (fun h => ⟨x, hx, hc ▸ h⟩)⟩
+    have hf : x'.foreignTo s.me → foreignAt s n := fun ⟨r, hr, hne⟩ => ⟨x, hx, r, hc ▸ hr, hne⟩
+    exact ⟨inv_putXR hi n x' (fun h => hi.bound n ⟨x, hx, hc ▸ h⟩) hf, fut_putXR s n x' hf⟩
   | xrRemove n =>
     exact ⟨inv_setXR hi n none (fun y hy => by cases hy) (fun y hy => by cases hy), fut_setXR s n none (fun y hy => by cases hy)⟩
-  | claimWrite c c' hc href =>
-    exact ⟨inv_pushClaim_same hi hc href, fut_pushClaim _ _⟩
+  | claimWrite c c' hc href hid =>
+    exact ⟨inv_pushClaim_same hi hc href hid, fut_pushClaim _ _⟩
   | claimGone =>
     refine ⟨{ rvLt := hi.rvLt, mono := hi.mono, cur := fun c h => (by cases h), bound := hi.bound, ackd := hi.ackd,
-              ackHist := hi.ackHist, p0 := hi.p0, trace := hi.trace, xcur := hi.xcur, xfor := hi.xfor },
+              ackHist := hi.ackHist, p0 := hi.p0, trace := hi.trace, idOk := hi.idOk, xcur := hi.xcur, xfor := hi.xfor },
       ⟨fun _ h => h, fun _ h => h⟩⟩
 
 /-- the scripted environment actions of the harness are environment steps (or no-ops) -/
@@ -520,13 +544,25 @@ theorem applyEnv_env (s : St) (a : EnvAct) : applyEnv s a = s ∨ Env s (applyEn
       split
       · split
         · exact Or.inl rfl
-        · exact Or.inr (Env.claimWrite s c _ hc rfl)
+        · exact Or.inr (Env.claimWrite s c _ hc rfl rfl)
       · exact Or.inr (Env.claimGone s)
     · exact Or.inl rfl
   | claimTouch =>
     simp only [applyEnv]
     split
-    · rename_i c hc; exact Or.inr (Env.claimWrite s c c hc rfl)
+    · rename_i c hc; exact Or.inr (Env.claimWrite s c c hc rfl rfl)
+    · exact Or.inl rfl
+  | claimRetype t =>
+    simp only [applyEnv]
+    split
+    · rename_i c hc
+      split
+      · rename_i r hr
+        split
+        · exact Or.inl rfl
+        · refine Or.inr (Env.claimWrite s c _ hc ?_ rfl)
+          simp [Claim.refName, hr, mkXRef]
+      · exact Or.inl rfl
     · exact Or.inl rfl
 
 end Xp.C06
